@@ -62,7 +62,7 @@ Lemma verify_dual_proof_gen_inv repaired p src tgt salh talh :
        verify_linear_proof H (dp_lin p) (h_bltxid th) tgt (dp_tblalh p) talh = true) /\
     (h_bltxid th <= src -> verify_linear_proof H (dp_lin p) src tgt salh talh = true) /\
     (0 < h_bltxid sh ->
-       verify_consistency H (dp_cons p) (h_bltxid sh) (h_bltxid th) (h_blroot sh) (h_blroot th) = Ok true) /\
+       verify_consistency_fixed H (dp_cons p) (h_bltxid sh) (h_bltxid th) (h_blroot sh) (h_blroot th) = Ok true) /\
     (0 < h_bltxid th ->
        verify_last_inclusion H (dp_last p) (h_bltxid th) (leaf_for H (dp_tblalh p)) (h_blroot th) = true).
 Proof.
@@ -86,7 +86,7 @@ Proof.
   - destruct (verify_inclusion H (dp_incl p) src (h_bltxid th) (leaf_for H salh) (h_blroot th)) eqn:Vi;
       cbn [negb] in V; [|discriminate].
     destruct (N.ltb_spec 0 (h_bltxid sh)) as [Ps|Zs].
-    + destruct (verify_consistency H (dp_cons p) (h_bltxid sh) (h_bltxid th) (h_blroot sh) (h_blroot th))
+    + destruct (verify_consistency_fixed H (dp_cons p) (h_bltxid sh) (h_bltxid th) (h_blroot sh) (h_blroot th))
         as [[|]| |] eqn:Vc; cbn [bind negb] in V; try discriminate.
       destruct (N.ltb_spec 0 (h_bltxid th)) as [Pt|Zt]; cbn [andb] in V; [|lia].
       destruct (verify_last_inclusion H (dp_last p) (h_bltxid th) (leaf_for H (dp_tblalh p)) (h_blroot th)) eqn:Vl;
@@ -102,7 +102,7 @@ Proof.
         cbn [negb] in V; [|discriminate].
       repeat split; auto; try lia; intros; lia.
   - destruct (N.ltb_spec 0 (h_bltxid sh)) as [Ps|Zs].
-    + destruct (verify_consistency H (dp_cons p) (h_bltxid sh) (h_bltxid th) (h_blroot sh) (h_blroot th))
+    + destruct (verify_consistency_fixed H (dp_cons p) (h_bltxid sh) (h_bltxid th) (h_blroot sh) (h_blroot th))
         as [[|]| |] eqn:Vc; cbn [bind negb] in V; try discriminate.
       destruct (N.ltb_spec 0 (h_bltxid th)) as [Pt|Zt]; cbn [andb] in V.
       * destruct (verify_last_inclusion H (dp_last p) (h_bltxid th) (leaf_for H (dp_tblalh p)) (h_blroot th)) eqn:Vl;
